@@ -646,3 +646,174 @@ Proof.
 Qed.
 
 End Whole.
+
+(* ---------- Part F: what is restored and what is not ---------- *)
+
+Section Restored.
+Variable pr : proc.
+
+Definition default_opts : lopts := mkLopts false false.
+
+Definition meta_restored (a : attrs) (m : fmeta) : Prop :=
+  fm_perm m = perm_of a /\ fm_uid m = t_uid a /\ fm_gid m = t_gid a /\ fm_xattrs m = sort_xattrs (t_xattrs a).
+
+(* same kind; permission, set-id and sticky bits, owner, xattrs; content, target, device number *)
+Definition restored (c : tree) (e : fnode) : Prop :=
+  match c, e with
+  | TDir a _, FDir m _ => meta_restored a m
+  | TFile a d, FFile m d' => meta_restored a m /\ d' = d
+  | TLink a tg, FLink m tg' =>
+      fm_uid m = t_uid a /\ fm_gid m = t_gid a /\ fm_xattrs m = sort_xattrs (t_xattrs a) /\ tg' = tg
+  | TDev a r, FDev m chr r' =>
+      meta_restored a m /\ r' = r /\ chr = (N.land (t_mode a) S_IFMT =? S_IFCHR)
+  | _, _ => False
+  end.
+
+Definition has_archived_child (ch : list (bytes * tree)) : Prop :=
+  exists nm c, In (nm, c) ch /\ supported_tree c = true.
+
+(* the objects whose mtime the writer sets last and nothing touches afterwards *)
+Definition mtime_kept (c : tree) : Prop :=
+  t_mtime (tree_attrs c) <> 0 /\
+  match c with
+  | TFile _ _ | TDev _ _ => True
+  | TDir _ ch => ~ has_archived_child ch
+  | _ => False
+  end.
+
+Lemma expect_supported o c : supported_tree c = true -> exists e, expect pr o c = Some e.
+Proof.
+  destruct c; cbn [supported_tree]; intros H; try discriminate.
+  - rewrite expect_dir. eauto.
+  - rewrite expect_file. eauto.
+  - rewrite expect_link. eauto.
+  - rewrite expect_dev. eauto.
+Qed.
+
+Lemma exp_kids_nil o ch : exp_kids pr o ch = [] <-> ~ has_archived_child ch.
+Proof.
+  induction ch as [|[k c] r IH].
+  - split; [intros _ (nm & c & [] & _)|reflexivity].
+  - unfold exp_kids. cbn [flat_map]. fold (exp_kids pr o r). split.
+    + intros E (nm & c' & Hin & Hs).
+      destruct (expect pr o c) as [e|] eqn:Ec; [discriminate|]. cbn [app] in E.
+      destruct Hin as [Heq|Hin].
+      * inversion Heq; subst. destruct (expect_supported o c' Hs) as [e Ee]. congruence.
+      * apply (proj1 IH E). exists nm, c'. split; assumption.
+    + intros Hno. destruct (expect pr o c) as [e|] eqn:Ec.
+      * exfalso. apply Hno. exists k, c. split; [now left|]. destruct c; try reflexivity. discriminate.
+      * cbn [app]. apply IH. intros (nm & c' & Hin & Hs). apply Hno. exists nm, c'. split; [now right|exact Hs].
+Qed.
+
+Lemma restored_expect c e : expect pr default_opts c = Some e -> restored c e.
+Proof.
+  destruct c; intros E.
+  - rewrite expect_dir in E. inversion E; subst. cbn. repeat split.
+  - rewrite expect_file in E. inversion E; subst. cbn. repeat split.
+  - rewrite expect_link in E. inversion E; subst. cbn. repeat split.
+  - rewrite expect_dev in E. inversion E; subst. cbn. repeat split.
+  - discriminate.
+Qed.
+
+Lemma mtime_expect c e :
+  expect pr default_opts c = Some e -> mtime_kept c -> fm_mtime (fmeta_of e) = Stamp (t_mtime (tree_attrs c)).
+Proof.
+  intros E [Hnz Hk]. assert (Ht : exp_time (tree_attrs c) = Stamp (t_mtime (tree_attrs c))).
+  { unfold exp_time. destruct (t_mtime (tree_attrs c) =? 0) eqn:Ez; [apply N.eqb_eq in Ez; contradiction|reflexivity]. }
+  destruct c; try contradiction.
+  - rewrite expect_dir in E. inversion E; subst. cbn [fmeta_of fm_mtime tree_attrs] in *.
+    apply (exp_kids_nil default_opts) in Hk. rewrite Hk. exact Ht.
+  - rewrite expect_file in E. inversion E; subst. exact Ht.
+  - rewrite expect_dev in E. inversion E; subst. exact Ht.
+Qed.
+
+(* Everything the archive carries is put back -- at the right path, with the right type,
+   permission/set-id/sticky bits, owner, xattrs, content, link target and device number -- and
+   the mtime of every file, device and directory without archived children (unless it is the
+   epoch).  End to end in the model: tar(), encoder, decoder, ArchiveDecoder.Next, LocalFS. *)
+Theorem untar_restores a ch :
+  wf_tree (TDir a ch) -> unique_tree (TDir a ch) ->
+  exists b ns r,
+    tar_of_tree (TDir a ch) = Some b /\ decode_archive b = Ok (ns, []) /\
+    untar pr default_opts ns (empty_root pr) = FOk r /\
+    forall p c, tree_at p (TDir a ch) = Some c -> supported_tree c = true ->
+      exists e, lookup p r = Some e /\ restored c e /\
+                (mtime_kept c -> fm_mtime (fmeta_of e) = Stamp (t_mtime (tree_attrs c))).
+Proof.
+  intros Hwf Hun. destruct (tar_untar_result pr default_opts a ch Hwf Hun) as (b & ns & r & Eb & Ed & Eu & Ee).
+  exists b, ns, r. repeat split; try assumption.
+  intros p c Hat Hs. destruct (expect_supported default_opts c Hs) as [e Ec].
+  exists e. rewrite (lookup_expect pr default_opts p _ r c Hun Ee Hat).
+  split; [exact Ec|]. split; [apply restored_expect; exact Ec|apply mtime_expect; exact Ec].
+Qed.
+
+(* ---------- the defects, for every tree that has such an object ---------- *)
+
+(* the run of the previous theorem, for any options *)
+Definition unpacked (o : lopts) (t : tree) (r : fnode) : Prop :=
+  exists b ns, tar_of_tree t = Some b /\ decode_archive b = Ok (ns, []) /\ untar pr o ns (empty_root pr) = FOk r.
+
+Lemma unpacked_expect o a ch r :
+  wf_tree (TDir a ch) -> unique_tree (TDir a ch) -> unpacked o (TDir a ch) r -> expect pr o (TDir a ch) = Some r.
+Proof.
+  intros Hwf Hun (b & ns & Eb & Ed & Eu).
+  destruct (tar_untar_result pr o a ch Hwf Hun) as (b' & ns' & r' & Eb' & Ed' & Eu' & Ee').
+  rewrite Eb in Eb'. inversion Eb'; subst b'. rewrite Ed in Ed'. inversion Ed'; subst ns'.
+  rewrite Eu in Eu'. inversion Eu'; subst r'. exact Ee'.
+Qed.
+
+(* a directory with at least one archived child comes back with the time of extraction *)
+Theorem dir_mtime_lost o a ch r p a' ch' :
+  wf_tree (TDir a ch) -> unique_tree (TDir a ch) -> unpacked o (TDir a ch) r ->
+  tree_at p (TDir a ch) = Some (TDir a' ch') -> has_archived_child ch' ->
+  exists m ents, lookup p r = Some (FDir m ents) /\ fm_mtime m = Now.
+Proof.
+  intros Hwf Hun Hr Hat Hk. pose proof (unpacked_expect o a ch r Hwf Hun Hr) as Ee.
+  rewrite (lookup_expect pr o p _ r _ Hun Ee Hat), expect_dir.
+  eexists _, _. split; [reflexivity|]. cbn [fm_mtime].
+  destruct (exp_kids pr o ch') eqn:E; [|reflexivity].
+  exfalso. apply (proj1 (exp_kids_nil o ch') E). exact Hk.
+Qed.
+
+(* a symlink always comes back with the time of extraction *)
+Theorem symlink_mtime_lost o a ch r p a' tg :
+  wf_tree (TDir a ch) -> unique_tree (TDir a ch) -> unpacked o (TDir a ch) r ->
+  tree_at p (TDir a ch) = Some (TLink a' tg) ->
+  exists m, lookup p r = Some (FLink m tg) /\ fm_mtime m = Now.
+Proof.
+  intros Hwf Hun Hr Hat. pose proof (unpacked_expect o a ch r Hwf Hun Hr) as Ee.
+  rewrite (lookup_expect pr o p _ r _ Hun Ee Hat), expect_link. eexists. split; reflexivity.
+Qed.
+
+(* an object whose mtime is the epoch comes back with the time of extraction *)
+Theorem epoch_mtime_lost o a ch r p c :
+  wf_tree (TDir a ch) -> unique_tree (TDir a ch) -> unpacked o (TDir a ch) r ->
+  tree_at p (TDir a ch) = Some c -> supported_tree c = true -> t_mtime (tree_attrs c) = 0 ->
+  exists e, lookup p r = Some e /\ fm_mtime (fmeta_of e) = Now.
+Proof.
+  intros Hwf Hun Hr Hat Hs Hz. pose proof (unpacked_expect o a ch r Hwf Hun Hr) as Ee.
+  rewrite (lookup_expect pr o p _ r _ Hun Ee Hat).
+  assert (Ht : exp_time (tree_attrs c) = Now) by (unfold exp_time; rewrite Hz; reflexivity).
+  destruct c; try discriminate; cbn [tree_attrs] in Ht.
+  - rewrite expect_dir. eexists. split; [reflexivity|]. cbn [fmeta_of fm_mtime]. rewrite Ht. destruct (exp_kids pr o children); reflexivity.
+  - rewrite expect_file. eexists. split; [reflexivity|]. exact Ht.
+  - rewrite expect_link. eexists. split; reflexivity.
+  - rewrite expect_dev. eexists. split; [reflexivity|]. exact Ht.
+Qed.
+
+(* --no-same-owner: no extended attribute is restored *)
+Theorem no_same_owner_drops_xattrs nsp a ch r p c :
+  wf_tree (TDir a ch) -> unique_tree (TDir a ch) -> unpacked (mkLopts true nsp) (TDir a ch) r ->
+  tree_at p (TDir a ch) = Some c -> supported_tree c = true ->
+  exists e, lookup p r = Some e /\ fm_xattrs (fmeta_of e) = [].
+Proof.
+  intros Hwf Hun Hr Hat Hs. pose proof (unpacked_expect _ a ch r Hwf Hun Hr) as Ee.
+  rewrite (lookup_expect pr _ p _ r _ Hun Ee Hat).
+  destruct c; try discriminate.
+  - rewrite expect_dir. eexists. split; reflexivity.
+  - rewrite expect_file. eexists. split; reflexivity.
+  - rewrite expect_link. eexists. split; reflexivity.
+  - rewrite expect_dev. eexists. split; reflexivity.
+Qed.
+
+End Restored.
